@@ -28,6 +28,17 @@ class Runner:
         self.samples = []
         self.t0 = time.time()
         self.tmp = tempfile.mkdtemp(prefix='setigen-verif-', dir=os.environ.get('TMPDIR', '/var/tmp'))
+        self.last = None
+        runner = self
+
+        def hook(tp, val, tb):
+            # an exception escaping the harness while it drives the real code: report it as a failing case with the
+            # input that was being processed (never happens on a tree where the clauses hold; seeds 0..8 checked)
+            runner.failures.append({'case': 'unexpected-exception', 'input': runner.last, 'observed': f'{tp.__name__}: {val}',
+                                    'expected': 'no exception', 'traceback': ''.join(traceback.format_tb(tb))[-800:]})
+            runner.finish()
+            os._exit(0)
+        sys.excepthook = hook
 
     def n(self, quick, thorough):
         return thorough if self.tier == 'thorough' else quick
@@ -35,6 +46,7 @@ class Runner:
     def check(self, case, inp, ok, observed=None, expected=None, nontrivial=True):
         """Record one evaluation of a clause on the real code."""
         self.evaluations += 1
+        self.last = {'case': case, 'input': inp}
         key = (case, json.dumps(inp, sort_keys=True, default=str))
         if nontrivial:
             self.distinct.add(key)
